@@ -4,6 +4,7 @@
 mod common;
 mod registry_seq;
 mod defaults;
+mod origin;
 
 fn main() {
     let args: Vec<String> = std::env::args().collect();
@@ -11,6 +12,7 @@ fn main() {
     let code = match cmd {
         "registry" => registry_seq::main(),
         "defaults" => defaults::main(),
+        "origin" => origin::main(),
         _ => {
             eprintln!("usage: harness <registry>");
             2
